@@ -350,10 +350,17 @@ func (f *STFS) MkdirAll(path string, perm os.FileMode) error {
 	f.ioLock.Lock()
 	defer f.ioLock.Unlock()
 
-	parts := filepath.SplitList(path)
+	parts := strings.Split(filepath.ToSlash(path), "/")
 	currentPath := ""
+	if filepath.IsAbs(path) {
+		currentPath = "/"
+	}
 
 	for _, part := range parts {
+		if part == "" {
+			continue
+		}
+
 		if currentPath == "" {
 			currentPath = part
 		} else {
